@@ -29,7 +29,7 @@ BOUNDS = {
     "quick": dict(bases=5, maxpos=40, soup=3, chains=False, nest="{40, 150}", tables_every=3),
     "thorough": dict(bases=12, maxpos=160, soup=4, chains=True, nest="{40, 150, 400}", tables_every=1),
 }
-POSOPS = '{"Prefix", "Suffix", "CutChars", "DelLine", "DupLine", "SwapLines", "DelToken", "DupToken", "SwapTokens"}'
+POSOPS = '{"Prefix", "Suffix", "CutChars", "DelLine", "DupLine", "SwapLines", "DelToken", "DupToken", "SwapTokens", "BreakLine", "JoinLines", "OddSpace"}'
 
 
 def base_programs(wd, n, rng):
